@@ -70,7 +70,7 @@ pub struct MH {
 }
 #[derive(Clone, Debug)]
 pub struct Model {
-    pub slots: [Option<MA>; 2],
+    pub slots: [Option<MA>; 3],
     pub hs: Vec<MH>,
 }
 pub struct Real {
@@ -794,13 +794,13 @@ impl Universe for US {
     const NAME: &'static str = UNAME;
 
     fn new() -> (Real, Model) {
-        (Real { hs: Vec::with_capacity(16), blocks: Vec::with_capacity(16) }, Model { slots: [None, None], hs: Vec::with_capacity(16) })
+        (Real { hs: Vec::with_capacity(16), blocks: Vec::with_capacity(16) }, Model { slots: [None, None, None], hs: Vec::with_capacity(16) })
     }
 
     fn enabled(m: &Model, b: &Bounds) -> Vec<Op> {
         let mut v = vec![];
         let live = m.slots.iter().filter(|s| s.is_some()).count();
-        if m.hs.len() < b.max_handles && live < b.max_allocs.min(2) {
+        if m.hs.len() < b.max_handles && live < b.max_allocs.min(3) {
             for c in ALL_CTORS {
                 v.push(Op::New(*c));
             }
@@ -816,7 +816,7 @@ impl Universe for US {
                 if adds_handle(*op) && m.hs.len() >= b.max_handles {
                     continue;
                 }
-                if may_allocate(*op) && m.al(h.a).owners > 1 && (live >= b.max_allocs.min(2)) {
+                if may_allocate(*op) && m.al(h.a).owners > 1 && (live >= b.max_allocs.min(3)) {
                     continue;
                 }
                 if matches!(op, HOp::MakeMutPanic | HOp::MakeUniquePanic | HOp::OffMakeMutPanic | HOp::UnwrapOrClonePanic) && m.al(h.a).owners < 2 {
@@ -1059,7 +1059,7 @@ impl Universe for US {
 
     fn key(m: &Model) -> Vec<u8> {
         let mut best: Option<Vec<u8>> = None;
-        for perm in [[0usize, 1], [1, 0]] {
+        for perm in [[0usize, 1, 2], [0, 2, 1], [1, 0, 2], [1, 2, 0], [2, 0, 1], [2, 1, 0]] {
             let mut k = vec![];
             for &s in &perm {
                 match &m.slots[s] {
